@@ -22,6 +22,54 @@ impl Write for RecSink {
     }
 }
 
+/// a socket-like sink: accepts at most `limit` bytes per call and gathers the buffers of a vectored
+/// write (so a write may stop in the middle of any buffer)
+struct PacketSink {
+    bytes: Vec<u8>,
+    limit: usize,
+}
+impl Write for PacketSink {
+    fn write(&mut self, b: &[u8]) -> std::io::Result<usize> {
+        let n = b.len().min(self.limit);
+        self.bytes.extend_from_slice(&b[..n]);
+        Ok(n)
+    }
+    fn write_vectored(&mut self, bufs: &[std::io::IoSlice<'_>]) -> std::io::Result<usize> {
+        let mut left = self.limit;
+        let mut n = 0;
+        for b in bufs {
+            let k = b.len().min(left);
+            self.bytes.extend_from_slice(&b[..k]);
+            left -= k;
+            n += k;
+            if left == 0 { break; }
+        }
+        Ok(n)
+    }
+    fn flush(&mut self) -> std::io::Result<()> {
+        Ok(())
+    }
+}
+
+pub fn encode_packets(data: &[u8], w: u32, h: u32, color: ColorType, pred: bool, icc: &[u8], exif: &[u8], xmp: &[u8], limit: usize) -> Result<Vec<u8>, String> {
+    let mut sink = PacketSink { bytes: vec![], limit };
+    let r = catch(|| {
+        let mut e = WebPEncoder::new(&mut sink);
+        let mut p = EncoderParams::default();
+        p.use_predictor_transform = pred;
+        e.set_params(p);
+        e.set_icc_profile(icc.to_vec());
+        e.set_exif_metadata(exif.to_vec());
+        e.set_xmp_metadata(xmp.to_vec());
+        e.encode(data, w, h, color).map_err(|e| format!("{e:?}"))
+    });
+    match r {
+        Ok(Ok(())) => Ok(sink.bytes),
+        Ok(Err(e)) => Err(e),
+        Err(m) => Err(format!("PANIC {m}")),
+    }
+}
+
 pub fn color_of(i: u64) -> (ColorType, usize, bool, &'static str) {
     match i % 4 {
         0 => (ColorType::L8, 1, false, "L8"),
@@ -154,6 +202,18 @@ fn one(drv: &mut Drv, rep: &mut Report, w: u32, h: u32, ci: u64, pred: bool, dat
             Ok(b3) if b3 == bytes => {}
             Ok(b3) => fail("C09: the bytes written are a function of the arguments in force at encode time (metadata set earlier and then replaced or withdrawn leaves no trace)", format!("{} bytes, VP8X flags {:?}", b3.len(), if b3.len() > 20 && &b3[12..16] == b"VP8X" { Some(b3[20]) } else { None }), format!("{} bytes identical to the direct encode", bytes.len()), "violation"),
             Err(e) => fail("C09: encode after a history of setter calls succeeds", e, "Ok".into(), "violation"),
+        }
+    }
+    // ... and of nothing else: a sink that takes a few bytes per call and gathers vectored writes
+    // (stopping in the middle of a header, a payload or before a padding byte) receives the same bytes
+    for limit in [1usize, 5, 7, 1 + bytes.len() / 3] {
+        match encode_packets(data, w, h, color, pred, icc, exif, xmp, limit) {
+            Ok(b4) if b4 == bytes => {}
+            Ok(b4) => {
+                let k = b4.iter().zip(bytes.iter()).position(|(a, b)| a != b).unwrap_or(b4.len().min(bytes.len()));
+                fail("C09: the bytes written do not depend on how the sink accepts them (short and gathered writes)", format!("{} bytes, first difference at offset {k} (sink limit {limit})", b4.len()), format!("{} bytes identical to the direct encode", bytes.len()), "violation")
+            }
+            Err(e) => fail("C09: encode into a short-writing sink succeeds", e, "Ok".into(), "violation"),
         }
     }
     // crate decoder
